@@ -1,4 +1,5 @@
 import Tx3Model.PlutusData
+import Tx3Model.Json
 import Tx3Model.CompilerOps
 
 /-
@@ -19,6 +20,13 @@ structure AOutput where
   scriptRef : Option (Nat × Bytes)         -- plutus version (0 = native) and the script bytes
   deriving Repr
 
+/-- A vote-delegation certificate: whose stake (a key or a script credential) follows which DRep key. -/
+structure Cert where
+  credIsScript : Bool
+  cred : Bytes
+  drep : Bytes
+  deriving Repr, DecidableEq
+
 inductive Metadatum where
   | int (v : Int) | text (s : Bytes) | bytes (b : Bytes)
   deriving Repr, DecidableEq
@@ -36,7 +44,7 @@ structure ATx where
   referenceInputs : List TxIn
   networkId : Option Int
   donation : Option Int
-  certs : Nat
+  certs : List Cert
   hasScriptDataHash : Bool
   hasAuxDataHash : Bool
   metadata : List (Int × Metadatum)
@@ -106,7 +114,10 @@ def exprIntoAssets : Expr → Outcome (List Expr)
 def exprIntoUtxoRefs : Expr → Outcome (List UtxoRef)
   | .leaf (.utxoRefs rs) => .ok rs
   | .node (.utxoSet metas) _ => .ok (sortBy UtxoRef.le (metas.map (·.ref)))
-  | .leaf (.string _) => cerr "UtxoRefs"    -- only unparsable strings are generated
+  | .leaf (.string s) =>                     -- `txid#index`, as the JSON boundary reads it
+    (match Json.stringToUtxoRef s with
+     | .ok r => .ok [r]
+     | _ => cerr "UtxoRefs")
   | _ => cerr "UtxoRefs"
 
 def utxoRefIntoInput (r : UtxoRef) : Outcome TxIn := do
@@ -330,23 +341,27 @@ def compileWithdrawals (env : CompileEnv) (t : Tx) : Outcome (List (Bytes × Int
       if acc.any (fun x => x.1 = w.1) then .err "ConsistencyError" else go rest (insertKV w.1 w.2 acc)
   go (t.adhoc.filter fun d => adhocName d == "withdrawal") []
 
-def exprIntoStakeCredential (env : CompileEnv) (e : Expr) : Outcome Unit := do
+/-- `address_into_stake_credential`: the delegation part of a base address (its last 28 bytes; a script when the
+header says so), or the payload of a stake address. -/
+def exprIntoStakeCredential (env : CompileEnv) (e : Expr) : Outcome (Bool × Bytes) := do
   let a ← exprIntoAddress env e
   match a with
-  | h :: _ =>
+  | h :: rest =>
     let ty := h.toNat / 16
-    if ty ≤ 3 || ty = 14 || ty = 15 then .ok () else cerr "StakeCredential"
+    if ty ≤ 3 then .ok (ty = 2 || ty = 3, rest.drop 28)
+    else if ty = 14 then .ok (false, rest)
+    else if ty = 15 then .ok (true, rest)
+    else cerr "StakeCredential"
   | [] => cerr "StakeCredential"
 
-def compileCerts (env : CompileEnv) (t : Tx) : Outcome Nat := do
-  let cs ← mapMO (fun d => do
+def compileCerts (env : CompileEnv) (t : Tx) : Outcome (List Cert) :=
+  mapMO (fun d => do
     let stake ← (match adhocGet d "stake" with | some e => .ok e | none => .err "MissingExpression" : Outcome Expr)
-    exprIntoStakeCredential env stake
+    let (script, cred) ← exprIntoStakeCredential env stake
     let drep ← (match adhocGet d "drep" with | some e => .ok e | none => .err "MissingExpression" : Outcome Expr)
     let b ← exprIntoBytes drep
-    let _ ← bytesIntoHash 28 b
-    pure ()) (t.adhoc.filter fun d => adhocName d == "vote_delegation_certificate")
-  .ok cs.length
+    let h ← bytesIntoHash 28 b
+    pure ({ credIsScript := script, cred, drep := h } : Cert)) (t.adhoc.filter fun d => adhocName d == "vote_delegation_certificate")
 
 def compileRequiredSigners (t : Tx) : Outcome (List Bytes) :=
   match t.signers with
